@@ -193,6 +193,12 @@ func (c *client) Execute(
 	if c.atpVersion > 1 {
 		// Wrap it in a runtime message.
 		workStartMsg = RuntimeMessage{RunID: stepData.RunID, MessageID: MessageTypeWorkStart, MessageData: workStartMsg}
+		// Find out that the message cannot be encoded before the run is registered and the read loop is started
+		// for it: a run that was never sent would stay registered forever and keep the read loop, and with it
+		// Close, waiting for a result that cannot come.
+		if _, err := cbor.Marshal(workStartMsg); err != nil {
+			return NewErrorExecutionResult(fmt.Errorf("failed to encode work start message (%w)", err))
+		}
 		// Handle signals to the step
 		if signalsToStep != nil {
 			c.wg.Add(1)
@@ -209,6 +215,16 @@ func (c *client) Execute(
 	}
 	if err := c.sendCBOR(workStartMsg); err != nil {
 		c.logger.Errorf("Step '%s' failed to write start work message: %v", stepData.ID, err)
+		if c.atpVersion > 1 {
+			// The server never saw this run, so no result will come for it.
+			c.mutex.Lock()
+			delete(c.runningStepResultEntries, stepData.RunID)
+			if signalChannel, found := c.runningStepEmittedSignalChannels[stepData.RunID]; found {
+				delete(c.runningStepEmittedSignalChannels, stepData.RunID)
+				close(signalChannel) // as for a finished run: nothing will be emitted
+			}
+			c.mutex.Unlock()
+		}
 		return NewErrorExecutionResult(fmt.Errorf("failed to write work start message (%w)", err))
 	}
 	c.logger.Debugf("Step '%s' started, waiting for response...", stepData.ID)
